@@ -89,3 +89,7 @@ def check(run):
         rule="random histories (1-5 operations) over multi-RP stores (0-6 credentials over 3 RPs, identical user handles across RPs), "
              "allow/exclude lists absent/empty/hit/miss/foreign, descriptors with unknown `type`, every store kind (reference, MemoryStore, Option, and their lock wrappers)",
         assumptions=["MemoryStore departs from the lookup contract in two recorded classes (KNOWN_FINDINGS.json): reported, not failed"])
+    # a shared store whose lock is briefly held by another handle while the ceremony reaches a store call (C19's deterministic
+    # executor): the ceremony must wait - never answer as if nothing were stored, never skip a write
+    import c19
+    run.cov["held_lock"] = c19.check_held_locks(run, ("C05",))
